@@ -133,7 +133,12 @@ func verifKittyU(code, shifted, base rune, mods, event int, text []rune, haveShi
 // library's documented Shift+printable text work-around.
 func VerifC09DecodeKitty() {
 	code := rune(zzverif.Byte("code"))
-	zzverif.Assume(code >= 0x20 && code <= 0x7E)
+	if zzverif.Bool("controlKey") {
+		// the C0-coded keys the protocol reports by their own code: Escape, Enter, Tab, Backspace
+		code = []rune{27, 13, 9, 127}[zzverif.Choose("control", 4)]
+	} else {
+		zzverif.Assume(code >= 0x20 && code <= 0x7E)
+	}
 	shifted := rune(zzverif.Byte("shifted"))
 	base := rune(zzverif.Byte("base"))
 	modsField := int(zzverif.Byte("mods"))
